@@ -608,7 +608,7 @@ def const(ctx: Any) -> List[Ob]:
 
     def sym(x: ast.AST) -> Optional[str]:
         t = norm(x)
-        return {f'{qn}.ttl': 'TTL', nown: 'NOW', pct: 'PCT', f'{qn}.expire_time_millis': 'EXP'}.get(t)
+        return {f'{qn}.ttl': 'TTL', nown: 'NOW', pct: 'PCT', f'{qn}.expire_time_millis': 'EXP', f'{qn}.when_millis': 'DUE'}.get(t)
 
     ok_t, why = False, ''
     try:
@@ -620,11 +620,17 @@ def const(ctx: Any) -> List[Ob]:
                     pass
         ctor = [c for c in walk_local_ordered(rq.node) if isinstance(c, ast.Call) and call_name(c) == '_ScheduledPTRQuery']
         when = lf.poly(prog, rq.module, ctor[0].args[4], sym, env)
-        ok_t = when == lf.parse_poly('NOW + 1000*TTL*PCT')
+        ok_t = when in (lf.parse_poly('NOW + 1000*TTL*PCT'), lf.parse_poly('DUE + 1000*TTL*PCT'))
+        ok_due = when == lf.parse_poly('DUE + 1000*TTL*PCT')
         why = lf.p_str(when)
     except (lf.NotLinear, IndexError) as e:
         why = str(e)
-    obs.append(ob(R, rq, 'next_query_time = now + ttl*1000*pct', 'a rescue query is scheduled at now + pct of the TTL', ok_t, why))
+        ok_due = False
+    obs.append(ob(R, rq, 'rescue step size', 'a rescue query is scheduled a further pct of the TTL on (from the previous query)', ok_t, why))
+    # `each at most the configured inter-query delay late`: the step is counted from the time the previous query was DUE.
+    # Counted from the time it was SENT (up to one delay late) the lateness adds up: with a 60 s delay and the 1125 s floor the
+    # 85 % query is 66.5 s late and the 95 % query falls beyond the expiry and is never sent (F28, known finding)
+    obs.append(ob(R, rq, 'rescue step counted from the due time', 'the next rescue query is due pct of the TTL after the query it follows was due (lateness does not accumulate)', ok_due, why + ' -- counted from the time the previous query was sent'))
     rcfg = cfg_of(rq.node)
     ok_g = False
     for t in rcfg.nodes:
